@@ -61,6 +61,13 @@ def rule_global_components_only(ck, F, rule="R3"):
             if x.get("k") == "Let" and x.get("init") is not None:
                 for i_, _nm in Hh_.pat_bindings(x["pat"]):
                     lets[i_] = Hh_.describe(x["init"])
+            if x.get("k") == "Match":      # `match node.parent() { Some(parent) if .. => .. }`
+                for a_ in x.get("arms", []):
+                    for i_, _nm in Hh_.pat_bindings(a_["pat"]):
+                        lets[i_] = Hh_.describe(x["scrut"])
+            if x.get("k") == "LetExpr" and x.get("init") is not None:     # `if let Some(parent) = node.parent()`
+                for i_, _nm in Hh_.pat_bindings(x["pat"]):
+                    lets[i_] = Hh_.describe(x["init"])
 
         def has_schema_lit(n):
             return any(y.get("k") == "Lit" and y.get("lit") == "str" and y.get("v") == "schema" for y in Hh_.exprs(n))
